@@ -1,5 +1,5 @@
 (* C19 -- Safety analysis is total on every pickle that decompiles. *)
-From Coq Require Import List String Ascii ZArith Bool Arith Lia.
+From Coq Require Import List String Ascii ZArith Bool Arith Lia Permutation.
 From Verif Require Import Base Ops Interp Unparse Severity SeverityProofs AnalysisTable ReportTable
   Analysis AnalysisProofs FloorProofs ReportProofs.
 Import ListNotations.
@@ -25,24 +25,29 @@ Proof. exact verdict_ge. Qed.
 (* The rest of the property, again for ALL interpreter states: every finding
    - names a member of the Severity enum,
    - carries a message that is not None and not empty (its template in the live source has literal text),
-   - has a trigger that is a string, an int or a tuple of those (bound placeholders of its live
-     construction site; an expression the model cannot bind, e.g. an ast node, would be TOpaque),
+   - has a trigger that is a string, an int or a tuple of those (placeholders of the message at its live
+     construction site, which the model binds; any other expression, e.g. an ast node, would be TOpaque),
    - agrees in severity and analysis_name with its AnalysisResult(...) construction site in the
      regenerated ReportTable;
    the report to_dict() is JSON-serialisable; what check_safety writes to json_output_path is that report;
    and whenever loader.load refuses (any threshold), UnsafeFileError.info is that same report. *)
 Theorem C19_report_wellformed : forall crepr std protos s,
   exists fs, analyze crepr std protos s = Some fs /\
-    Forall finding_good fs /\
-    json_ok (to_dict default_verbosity fs) = true /\
-    json_file fs = to_dict default_verbosity fs /\
-    (forall thr info, loader thr fs = Unsafe info ->
-                      info = to_dict default_verbosity fs /\ json_ok info = true).
+    (* in whatever order the findings come out (the UnusedVariables ones follow the iteration order of
+       a Python set) *)
+    forall fs', Permutation fs fs' ->
+      Forall finding_good fs' /\
+      json_ok (to_dict default_verbosity fs') = true /\
+      json_file fs' = to_dict default_verbosity fs' /\
+      (forall thr info, loader thr fs' = Unsafe info ->
+                        info = to_dict default_verbosity fs' /\ json_ok info = true).
 Proof.
-  intros crepr std protos s. destruct (analyze_good crepr std protos s) as (fs & HA & HG).
-  exists fs. split; [exact HA|]. split; [exact HG|].
+  intros crepr std protos s. destruct (analyze_good crepr std protos s) as (fs & HA & HG0).
+  exists fs. split; [exact HA|]. intros fs' HP.
+  assert (Forall finding_good fs') as HG by (eapply Permutation_Forall; eauto).
+  split; [exact HG|].
   split; [apply report_json_ok; exact HG|]. split; [reflexivity|].
-  intros thr info H. destruct (loader_same_report thr fs info H) as [-> _].
+  intros thr info H. destruct (loader_same_report thr fs' info H) as [-> _].
   split; [reflexivity | apply report_json_ok; exact HG].
 Qed.
 
